@@ -387,7 +387,7 @@ static void enumerate(const vr::Shard &sh, vr::Report &r, const vr::Args &args)
   r.bounds["hostile"] = "byte0 0-255 x mask x lc {0,1,125} + lc126 x {0,125,126,256,257,768,65535} + lc127 x {0,125,126,257,768,65535,65536,2^31,2^32,2^63-1,2^63,2^64-1} x 3 read modes x filler {00,81}; max=256, 832 filler bytes in 128-byte reads";
   r.bounds["utf8"] = "all strings len 1-2 (256-byte alphabet), len 3-4 over 27 boundary bytes; all 2-fragment splits" + std::string(cx.thorough ? "" : " (len 4: single frame only)");
   r.bounds["gate"] = std::string("all op sequences of length <= ") + (cx.thorough ? "5" : "4") + " over TBPC (app) ctpxu (peer)";
-  r.notes.push_back(std::string("client configurable maximum: ") + (cx.C.hasConfigurableMax() ? "setMaxFrameSize present (1024 used)" : "none - judged against the library's server default 16 MiB in deep/fragflood"));
+  r.notes.push_back(std::string("client configurable maximum: ") + (cx.C.hasConfigurableMax() ? "setMaxFrameSize present (256 used)" : "none - judged against the library's server default 16 MiB in deep/fragflood"));
 
   uint64_t idx = 0;
   bool timeUp = false;
